@@ -25,7 +25,7 @@ theorem inv_single {s : St} (h : Inv s) : SingleRecord s := by
 
 /-- how a table update that keeps `uid`, and keeps `retired`/`sessions` of retired records, transports the invariant -/
 theorem inv_set {s : St} (h : Inv s) (rid : Nat) (r r' : Rec) (hr : s.recs[rid]? = some r)
-    (huid : r'.uid = r.uid) (hret : r'.retired = r.retired)
+    (huid : r'.uid = r.uid) (hret : r.retired = true → r'.retired = true)
     (hsess : r.retired = true → r.sessions = [] → r'.sessions = []) :
     Inv { s with recs := s.recs.set rid r' } := by
   refine ⟨?_, ?_, ?_, ?_⟩
@@ -34,7 +34,7 @@ theorem inv_set {s : St} (h : Inv s) (rid : Nat) (r r' : Rec) (hr : s.recs[rid]?
     by_cases hj : j = rid
     · subst hj
       rw [hr] at hx; cases hx
-      exact ⟨r', getElem?_set_eq' _ _ _ _ hr, by rw [hret]; exact hxr, hsess hxr hxs⟩
+      exact ⟨r', getElem?_set_eq' _ _ _ _ hr, hret hxr, hsess hxr hxs⟩
     · exact ⟨x, by simp only; rw [getElem?_set_ne' _ _ _ _ (fun e => hj e.symm)]; exact hx, hxr, hxs⟩
   · intro j x hx hl
     rcases getElem?_set_cases _ _ _ _ _ hx with ⟨hj, rfl⟩ | ⟨_, hx'⟩
@@ -42,14 +42,14 @@ theorem inv_set {s : St} (h : Inv s) (rid : Nat) (r r' : Rec) (hr : s.recs[rid]?
       simp only at hl
       rw [huid] at hl
       obtain ⟨a, b⟩ := h.unboundDone j r hr hl
-      exact ⟨by rw [hret]; exact a, hsess a b⟩
+      exact ⟨hret a, hsess a b⟩
     · exact h.unboundDone j x hx' hl
   · intro j hp
     obtain ⟨x, hx, hxr⟩ := h.closingRetired j hp
     by_cases hj : j = rid
     · subst hj
       rw [hr] at hx; cases hx
-      exact ⟨r', getElem?_set_eq' _ _ _ _ hr, by rw [hret]; exact hxr⟩
+      exact ⟨r', getElem?_set_eq' _ _ _ _ hr, hret hxr⟩
     · exact ⟨x, by simp only; rw [getElem?_set_ne' _ _ _ _ (fun e => hj e.symm)]; exact hx, hxr⟩
   · intro u j hl
     obtain ⟨x, hx, hxu⟩ := h.boundWf u j hl
@@ -109,14 +109,14 @@ theorem inv_getSession {a b : Bool} {s : St} (h : Inv s) (rid sid key : Nat) (no
       · exact h
       · split
         · exact h
-        · exact inv_set h rid r _ hr rfl rfl (by intro hx; rw [hnr'] at hx; cases hx)
+        · exact inv_set h rid r _ hr rfl (fun hh => by first | exact hh | (simp only; rw [hh]; rfl) | simp [hh]) (by intro hx; rw [hnr'] at hx; cases hx)
 
 theorem inv_closeLocked {s : St} (h : Inv s) (rid sid : Nat) : Inv (closeLocked s rid sid).1 := by
   unfold closeLocked
   split
   · exact h
   · rename_i r hr
-    exact inv_set h rid r _ hr rfl rfl (by intro _ he; simp only; rw [he]; rfl)
+    exact inv_set h rid r _ hr rfl (fun hh => by first | exact hh | (simp only; rw [hh]; rfl) | simp [hh]) (by intro _ he; simp only; rw [he]; rfl)
 
 theorem inv_retire {a b : Bool} {s : St} (h : Inv s) (rid : Nat) : Inv (retire (orphanRepaired a b) s rid) := by
   unfold retire
@@ -162,7 +162,7 @@ theorem inv_closeAll {s : St} (h : Inv s) (rid : Nat) : Inv (closeAll s rid).1 :
     · rename_i r hr
       obtain ⟨r0, hr0, hret⟩ := h.closingRetired rid hp
       rw [hr] at hr0; cases hr0
-      have base := inv_set h rid r { r with sessions := [] } hr rfl rfl (by intro _ _; rfl)
+      have base := inv_set h rid r { r with sessions := [] } hr rfl (fun hh => hh) (by intro _ _; rfl)
       refine ⟨?_, base.unboundDone, ?_, base.boundWf⟩
       · intro j hj
         simp only [List.mem_cons] at hj
@@ -252,11 +252,11 @@ theorem inv_refusedCleanup {a b : Bool} {s : St} (h : Inv s) (rid sid : Nat) :
         · have hret : (r.retired || ((orphanRepaired a b).cleanupRetires && r.sessions.isEmpty)) = r.retired := by
             simp [orphanRepaired, hb]
           rw [hret]
-          exact inv_set h rid r _ hr rfl rfl (fun _ he' => he')
+          exact inv_set h rid r _ hr rfl (fun hh => by first | exact hh | (simp only; rw [hh]; rfl) | simp [hh]) (fun _ he' => he')
       · have hret : (r.retired || ((orphanRepaired a b).cleanupRetires && r.sessions.isEmpty)) = r.retired := by
           simp [he]
         rw [hret]
-        exact inv_set h rid r _ hr rfl rfl (fun _ he' => he')
+        exact inv_set h rid r _ hr rfl (fun hh => by first | exact hh | (simp only; rw [hh]; rfl) | simp [hh]) (fun _ he' => he')
 
 theorem inv_step {a b : Bool} {s : St} (h : Inv s) (e : Ev) : Inv (step (orphanRepaired a b) s e) := by
   cases e with
